@@ -11,7 +11,8 @@
 //! the operators with the SAME object on both sides, `!!b`).
 //!
 //! Capacities: the const generic `N` is instantiated for every entry of `NS` (1, 2, 3, 10 and the 64-word boundary
-//! family 63, 64, 65, 128, 129); this list IS the instantiation list of the check.
+//! family 63, 64, 65, 128, 129, and the 256-word / 512-word boundary family 256, 257, 512, 513); this list IS the
+//! instantiation list of the check.
 //!
 //! Each case runs on a worker thread under a watchdog (2 s of CPU time on one case): an iterator that never returns makes the answer
 //! `hang` instead of blocking the check (later cases of that process are answered `INVALID skipped-after-hang`
@@ -25,11 +26,13 @@ use std::time::Duration;
 
 use rlib_bitset::bits_iter::BitsIter;
 
-const NS: [usize; 9] = [1, 2, 3, 10, 63, 64, 65, 128, 129];
+const NS: [usize; 13] = [1, 2, 3, 10, 63, 64, 65, 128, 129, 256, 257, 512, 513];
 /// capacities with the full small-scope streams
 const NS_SMALL: [usize; 4] = [1, 2, 3, 10];
 /// capacities at and beyond the 64-word (4096-bit) boundary: reduced, mostly sparse streams
 const NS_BIG: [usize; 5] = [63, 64, 65, 128, 129];
+/// capacities at and beyond the 256-word (16384-bit) and 512-word (32768-bit) boundaries: a handful of cases each, sparse in the quick tier
+const NS_HUGE: [usize; 4] = [256, 257, 512, 513];
 
 // ------------------------------------------------------------------------------------------------
 // parsing
@@ -810,6 +813,10 @@ fn run_line(line: &str) -> String {
         65 => catch(|| run_history::<65>(k, &ops)),
         128 => catch(|| run_history::<128>(k, &ops)),
         129 => catch(|| run_history::<129>(k, &ops)),
+        256 => catch(|| run_history::<256>(k, &ops)),
+        257 => catch(|| run_history::<257>(k, &ops)),
+        512 => catch(|| run_history::<512>(k, &ops)),
+        513 => catch(|| run_history::<513>(k, &ops)),
         _ => return INVALID.to_string(),
     };
     match r {
@@ -968,7 +975,8 @@ fn rand_word(rng: &mut SplitMix64) -> u64 {
 
 fn random_history(rng: &mut SplitMix64, n: usize, pools: &[Vec<u64>], bpos: &[usize], max_len: u64, st: &mut Stats) -> String {
     let big = n >= 63;
-    let k = 1 + rng.below(if big { 3 } else { 4 }) as usize;
+    // (every register is observed at the end: fewer registers for the capacities where one observation is expensive)
+    let k = 1 + rng.below(if n >= 256 { 2 } else if big { 3 } else { 4 }) as usize;
     let len = 1 + rng.below(max_len) as usize;
     let mut s = format!("{} {}", n, k);
     let r = |rng: &mut SplitMix64| rng.below(k as u64) as usize;
@@ -1019,7 +1027,7 @@ fn random_history(rng: &mut SplitMix64, n: usize, pools: &[Vec<u64>], bpos: &[us
             format!("xora {} {}", r(rng), r(rng))
         } else if c < 86 {
             // a complement is dense: rare for the big capacities (observation cost)
-            if big && !rng.chance(1, 8) {
+            if big && !rng.chance(1, if n >= 256 { 30 } else { 8 }) {
                 st.bump("op_flip");
                 format!("flip {} {}", r(rng), rand_pos(rng, n, bpos, st))
             } else {
@@ -1082,6 +1090,47 @@ fn pool_big(n: usize, rng: &mut SplitMix64) -> (Vec<Vec<u64>>, Vec<Vec<u64>>) {
     de.push(from_bits(n, |i| i < 4096.min(b / 2))); // the first block (half of the words for N <= 64) full
     de.push(vec![0x5555_5555_5555_5555; n]);
     (sp, de)
+}
+
+/// Sets for the capacities at and beyond the 256-word / 512-word boundaries: (sparse sets, dense sets).
+/// The sparse sets have non-empty words whose counterparts 64, 128, 256, 512 words further on are empty (and the other way round), members on both
+/// sides of bits 16384 and 32768, long runs of empty words before the only member, and whole chunks of 256 words empty.
+fn pool_huge(n: usize, rng: &mut SplitMix64) -> (Vec<Vec<u64>>, Vec<Vec<u64>>) {
+    let b = 64 * n;
+    let mut sp: Vec<Vec<u64>> = Vec::new();
+    sp.push(from_bits(n, |i| i == 5)); // 0: only word 0 is not empty
+    sp.push(from_bits(n, |i| i == b - 1)); // 1: only the last bit
+    sp.push(from_bits(n, |i| {
+        [63, 64, 4095, 4096, 8191, 8192, 16319, 16320, 16383, 16384, 16385, 16447, 16448, 24576, 32703, 32704, 32767, 32768, 32769, b - 64, b - 1].contains(&i)
+    })); // 2: members around every block boundary
+    sp.push((0..n).map(|k| if k < 256 { 1u64 << rng.below(64) } else { 0 }).collect()); // 3: one random bit in every word of the first 256 words, nothing beyond
+    sp.push({
+        let mut w = vec![0u64; n];
+        for _ in 0..40 {
+            let x = rng.below(b as u64) as usize;
+            w[x / 64] |= 1 << (x % 64);
+        }
+        w
+    }); // 4: forty random members
+    sp.push(from_bits(n, |i| i / 64 == 255.min(n - 1))); // 5: word 255 (the last word of the first 256-word chunk) full
+    sp.push((0..n).map(|k| if k >= 256.min(n - 1) { 1u64 << rng.below(64) } else { 0 }).collect()); // 6: one random bit in every word from 256 on, the first chunk empty
+    sp.push(from_bits(n, |i| i / 64 == n - 1)); // 7: last word full
+    sp.push(from_bits(n, |i| i % 64 == 63 && (i / 64) % 64 == 63)); // 8: bit 63 of every 64th word
+    let mut de: Vec<Vec<u64>> = Vec::new();
+    de.push(vec![u64::MAX; n]);
+    de.push((0..n).map(|_| rng.next_u64()).collect());
+    de.push(from_bits(n, |i| i < 16384.min(b / 2))); // the first 256 words (half of the words for N = 256) full
+    de.push(vec![0x5555_5555_5555_5555; n]);
+    (sp, de)
+}
+
+fn boundary_positions_huge(n: usize) -> Vec<usize> {
+    let b = 64 * n;
+    let mut v: Vec<usize> = vec![0, 63, 4096, 16383, 16384, 16385, 16447, 32767, 32768, 32769, b - 65, b - 64, b - 1];
+    v.retain(|&x| x < b);
+    v.sort();
+    v.dedup();
+    v
 }
 
 fn boundary_positions_big(n: usize) -> Vec<usize> {
@@ -1340,6 +1389,123 @@ fn gen(args: &Args, emit0: &mut dyn FnMut(String), st: &mut Stats) {
         }
         // random histories
         for i in 0..(if thorough { 400 } else if lite { 5 } else { 12 }) {
+            let max_len = if i % 10 == 0 { 20 } else { 8 };
+            emit(random_history(&mut rng, n, &sp, &bp, max_len, st));
+            st.bump(&tag);
+        }
+    }
+    // (J) capacities at and beyond the 256-word and 512-word boundaries (256, 257, 512, 513): rendering, iteration, count, operators and
+    //     equality on a handful of cases each.  One observation of a sparse 32832-bit register costs ~0.05 s on the model side, of a dense
+    //     one ~0.5 s: the quick tier stays sparse (one full set per capacity past a boundary) and puts the weight on 257 and 513.
+    const BIN: &str = "and 2 0 1 ; or 3 0 1 ; xor 4 0 1";
+    const ASSIGN: &str = "clone 2 0 ; anda 2 1 ; clone 3 0 ; ora 3 1 ; clone 4 0 ; xora 4 1";
+    for &n in &NS_HUGE {
+        let b = 64 * n;
+        let (sp, de) = pool_huge(n, &mut rng);
+        let bp = boundary_positions_huge(n);
+        let tag = format!("J_N{}", n);
+        let lite = !thorough && n != 257 && n != 513;
+        let rot = args.seed as usize;
+        // rendering / iteration / count of every set; of its clone_from copy and its cleared original
+        for (i, p) in sp.iter().enumerate() {
+            if lite && ![0, 1, 2, 5].contains(&i) {
+                continue;
+            }
+            if thorough || i == 1 {
+                emit(format!("{} 2 ; load 0 {} ; clonefrom 1 0 ; clear 0", n, words_hex(p)));
+            } else {
+                emit(format!("{} 1 ; load 0 {}", n, words_hex(p)));
+            }
+            st.bump(&tag);
+        }
+        if thorough {
+            for p in &de {
+                emit(format!("{} 2 ; load 0 {} ; not 1 0", n, words_hex(p)));
+                st.bump(&tag);
+            }
+            emit(format!("{} 2 ; not 0 0 ; remove 0 {} ; remove 0 16383 ; remove 0 0 ; not 1 0", n, b - 1));
+            emit(format!("{} 2 ; set 0 0 ; set 0 {} ; not 1 0", n, b - 1));
+            st.add(&tag, 2);
+        } else if !lite {
+            // the full set: count and the iterator's length reach 64 N (16448 > 2^14, 32832 > 2^15)
+            emit(format!("{} 1 ; load 0 {}", n, words_hex(&de[0])));
+            st.bump(&tag);
+        }
+        // point operations at the block boundaries
+        let sel: Vec<&Vec<u64>> = if thorough { vec![&sp[2], &sp[3], &sp[6], &de[0]] } else { vec![&sp[2]] };
+        for p in &sel {
+            let (step, off) = if thorough { (1, 0) } else if lite { (6, rot % 6) } else { (3, rot % 3) };
+            for &x in bp.iter().skip(off).step_by(step) {
+                for op in ["set", "remove", "flip"] {
+                    emit(format!("{} 1 ; load 0 {} ; {} 0 {} ; test 0 {}", n, words_hex(p), op, x, x));
+                    st.bump(&tag);
+                }
+            }
+        }
+        // operators on pairs (five registers per case: the binary forms and the assigning forms separately)
+        if thorough {
+            // (every sparse pair, and the random dense set against everything: a case with dense results costs ~1 s on the model side at N = 513)
+            let sel: Vec<&Vec<u64>> = sp.iter().chain(de.iter().skip(1).take(1)).collect();
+            for a in &sel {
+                for bb in &sel {
+                    emit(format!("{} 5 ; load 0 {} ; load 1 {} ; {}", n, words_hex(a), words_hex(bb), BIN));
+                    emit(format!("{} 5 ; load 0 {} ; load 1 {} ; {}", n, words_hex(a), words_hex(bb), ASSIGN));
+                    st.add(&tag, 2);
+                }
+            }
+            emit(format!("{} 4 ; load 0 {} ; and 1 0 0 ; or 2 0 0 ; xor 3 0 0", n, words_hex(&sp[3])));
+            emit(format!("{} 2 ; load 0 {} ; load 1 {} ; xora 0 0 ; anda 1 1", n, words_hex(&sp[4]), words_hex(&sp[2])));
+            st.add(&tag, 2);
+        } else {
+            // operands that differ in the first chunk only / beyond it only / on both sides (rotating with the seed)
+            let pairs = [(2usize, 3usize), (3, 6), (6, 2), (4, 8)];
+            let (i, j) = pairs[rot % 4];
+            emit(format!("{} 5 ; load 0 {} ; load 1 {} ; {}", n, words_hex(&sp[i]), words_hex(&sp[j]), BIN));
+            st.bump(&tag);
+            if !lite {
+                let (i, j) = pairs[(rot + 1) % 4];
+                emit(format!("{} 5 ; load 0 {} ; load 1 {} ; {}", n, words_hex(&sp[i]), words_hex(&sp[j]), ASSIGN));
+                st.bump(&tag);
+            }
+        }
+        // equality / inequality of sets that differ only beyond the first 256 (512) words
+        emit(format!("{} 3 ; set 0 {} ; set 1 {} ; set 1 {}", n, 16384.min(b - 64), 16384.min(b - 64), b - 1));
+        st.bump(&tag);
+        if n > 512 {
+            emit(format!("{} 2 ; set 0 100 ; set 1 100 ; set 1 32768", n));
+            st.bump(&tag);
+        }
+        // from_u64, single bits and bit pairs at the boundaries
+        for (wi, w) in [0x8000_0000_0000_0001u64, u64::MAX, 1].into_iter().enumerate() {
+            if thorough || (!lite && wi == 0) {
+                emit(format!("{} 1 ; from 0 {:x}", n, w));
+                st.bump(&tag);
+            }
+        }
+        for (i, &x) in bp.iter().enumerate() {
+            if !thorough && (i + rot) % (if lite { 6 } else { 3 }) != 0 {
+                continue;
+            }
+            emit(format!("{} 1 ; set 0 {}", n, x));
+            st.bump(&tag);
+            if let Some(&y) = bp.get(i + 1) {
+                emit(format!("{} 1 ; set 0 {} ; set 0 {}", n, y, x));
+                st.bump(&tag);
+            }
+        }
+        // live objects with mid-history observations
+        for _ in 0..(if thorough { 20 } else if lite { 0 } else { 1 }) {
+            let a = rng.pick(&sp);
+            let bb = rng.pick(&sp);
+            let x = *rng.pick(&bp);
+            emit(format!(
+                "{} 2 ; load 0 {} ; obs 0 ; load 1 {} ; xora 0 1 ; obs 0 ; clonefrom 1 0 ; flip 0 {} ; obs 1 ; default 1",
+                n, words_hex(a), words_hex(bb), x
+            ));
+            st.bump(&tag);
+        }
+        // random histories
+        for i in 0..(if thorough { 80 } else if lite { 1 } else { 3 }) {
             let max_len = if i % 10 == 0 { 20 } else { 8 };
             emit(random_history(&mut rng, n, &sp, &bp, max_len, st));
             st.bump(&tag);
